@@ -97,6 +97,7 @@ type exec struct {
 	calls      []*e2.Call
 
 	ruleMismatch string
+	lastHdr      *e4.Header // header of the last message the peer sent (on any link)
 }
 
 func (x *exec) failf(key, f string, a ...any) *failure {
@@ -210,9 +211,22 @@ func (x *exec) header(w bool) e4.Header {
 }
 
 // peerSends transmits one single-block message to the library and requires its delivery.
-func (x *exec) peerSends() string {
+func (x *exec) peerSends() string { return x.peerSendsHdr(x.header(false)) }
+
+// peerSendsAgain transmits, on the current link, a message with exactly the header of the last
+// message the peer sent on an earlier link (a restarted peer re-issuing its first transaction):
+// duplicate detection is per link — the message must be delivered.
+func (x *exec) peerSendsAgain() string {
+	if x.lastHdr == nil {
+		return ""
+	}
+	return x.peerSendsHdr(*x.lastHdr)
+}
+
+func (x *exec) peerSendsHdr(h e4.Header) string {
+	x.lastHdr = &h
 	before := x.n.NDelivered()
-	blk := e4.Split(x.header(false), []byte{0x41, 0x02, 'o', 'k'})[0]
+	blk := e4.Split(h, []byte{0x41, 0x02, 'o', 'k'})[0]
 	ans, ok, err := x.ep.SendBlock(blk.Marshal())
 	if err != nil {
 		return "peer -> library: " + err.Error()
@@ -353,6 +367,10 @@ func (x *exec) verifySession(wantReconnects uint64) *failure {
 		if n := x.n.C.Metrics().Reconnects(); n != wantReconnects {
 			return x.failf("reconnects-count", "Reconnects()=%d after %d successful re-dial(s)", n, wantReconnects)
 		}
+	}
+	w.Advance(gap)
+	if s := x.peerSendsAgain(); s != "" {
+		return x.failf("no-recovery", "on the re-established link, a message with the same header as the last one accepted on the previous link: %s", s)
 	}
 	w.Advance(gap)
 	if s := x.peerSends(); s != "" {
